@@ -833,6 +833,55 @@ func c14Mutating(c *fw.Ctx, r *rng.R) {
 			c.Violate("view-wrong:mutating-callback", inL(), "the original elements visited once each, in order", fmt.Sprint(seen))
 		}
 	})
+	// lists: a typed view whose callback turns a not yet visited element of another kind into one of its own kind
+	// (Replace touches that one slot only): every int that was there from the start is still visited once, in order
+	inR := func() string {
+		return fmt.Sprintf("list [0,\"s\",1,\"s\",...] with %d ints; typed view %d whose callback replaces a string further on by an int", m, view)
+	}
+	guard(c, inR, func() {
+		c.Distinct(inR())
+		l := at.NewList()
+		for i := 0; i < m; i++ {
+			l.Add(i, "s")
+		}
+		var seen []int
+		calls := 0
+		act := func(v int) {
+			calls++
+			if v < 1000 {
+				seen = append(seen, v)
+				// the string right behind this int (not yet visited) becomes an int
+				if calls <= 3 && 2*v+1 < l.Count() {
+					l.Replace(2*v+1, 1000+calls)
+				}
+			}
+		}
+		var red int
+		pan, msg := drive.Protect(func() {
+			switch view % 4 {
+			case 0:
+				l.ForEachInt(func(v int) { act(v) })
+			case 1:
+				l.MapInts(func(v int) any { act(v); return v })
+			case 2:
+				red = l.ReduceInts(0, func(a, b int) int { act(b); return a + 1 })
+			default:
+				l.FilterInts(func(v int) bool { act(v); return true })
+			}
+		})
+		_ = red
+		if pan {
+			c.Violate("view-wrong:mutating-callback", inR(), "the iteration ends normally", "panic: "+msg)
+			return
+		}
+		ok := len(seen) == m
+		for i := 0; ok && i < m; i++ {
+			ok = seen[i] == i
+		}
+		if !ok {
+			c.Violate("view-wrong:mutating-callback", inR(), "the ints that were there from the start visited once each, in order", fmt.Sprint(seen))
+		}
+	})
 }
 
 func c14Case(c *fw.Ctx, r *rng.R, tree *spec.Spec) {
